@@ -360,6 +360,7 @@ func systemModule() *module {
 		mk("load1000", system.Load, 1000),
 		mk("inv-negTrigger", system.Concurrency, -1), mk("inv-metricType", 99, 0), mk("inv-cpu", system.CpuUsage, 1.5),
 		{ID: "nil", Nil: true, mk: func() interface{} { return (*system.Rule)(nil) }},
+		mk("conc5", system.Concurrency, 5), // a second rule of a metric type that is already present
 	}
 	conv := func(rs []interface{}) []*system.Rule {
 		out := make([]*system.Rule, 0, len(rs))
@@ -371,7 +372,7 @@ func systemModule() *module {
 	blocking := map[string]bool{"conc0": true, "qps0": true}
 	return &module{
 		Name: "system", Specs: specs, Resources: []string{"sys"},
-		Lists: [][]int{{}, {0}, {2}, {0, 2}, {2, 0}, {2, 3}, {1, 2, 3}, {3}, {7}, {2, 7}, {7, 0}, {4, 2}, {4}, {5, 2}, {5}, {6, 2}, {6}},
+		Lists: [][]int{{}, {0}, {2}, {0, 2}, {2, 0}, {2, 3}, {1, 2, 3}, {3}, {7}, {2, 7}, {7, 0}, {4, 2}, {4}, {5, 2}, {5}, {6, 2}, {6}, {0, 8}, {8, 0}, {8}, {8, 2, 0}},
 		Load:  func(rs []interface{}) (bool, error) { return system.LoadRules(conv(rs)) },
 		Clear: system.ClearRules,
 		Get: func() []string {
